@@ -217,6 +217,15 @@ def module_literals() -> dict:
                 try:
                     out[tgt] = wrap(ast.literal_eval(inner))
                 except Exception:
+                    # not a plain literal: a display/comprehension over literals, pure builtins and the constants folded so
+                    # far (`{"s": ord("s"), ...}`, `{c: ord(c) for c in "sra"}`)
+                    try:
+                        v2 = _Verifier(set(out), set())
+                        if v2.ok_expr(val, set()):
+                            out[tgt] = eval(compile(ast.fix_missing_locations(ast.Expression(val)), "<module literal>", "eval"),  # noqa: S307
+                                            {"__builtins__": dict(SAFE_BUILTINS)}, dict(out))
+                    except Exception:
+                        pass
                     continue
         _LITERALS = out
     return _LITERALS
